@@ -1,7 +1,7 @@
 //! C09 - graph re-compression and node censoring are exact.
 use super::c04::payload_map;
 use super::note;
-use crate::case::{GCase, Part};
+use vglue::case::{GCase, Part};
 use crate::pipe::*;
 use debruijn::compression::*;
 use debruijn::filter::*;
